@@ -100,6 +100,12 @@ theorem C10_refusals (s : State) (id : Nat) (kind : String) (arg : Int) (o : Ora
   · intro h; unfold act; simp [h]
   · intro h1 h2; unfold act; simp [h1, h2]
 
+/-- an accepted action is recorded under the hand state it produced — `createPlayerGameAction` reads the hand id and the
+round from the state the action returned (`gs`), not from the live hand state, which the hand's own goroutine may already
+have moved on (D33; regenerated from table_engine_internal.go) -/
+theorem C10_action_record_fact : Facts.actionRecordReads = ["pga.GameID = gs.GameID", "pga.Round = gs.Status.Round"] := by
+  decide
+
 /-- **C10 — an accepted action is applied once and published**: it becomes the table's last player action naming
 that player, seat, action, round and hand; pass and the wager actions are also emitted as exactly one action event
 carrying the same record; the log of accepted actions grows by exactly this one. -/
